@@ -232,6 +232,7 @@ type builtPkg struct {
 	exe    map[string]string
 	ccErr  map[string]string
 	fnIdx  map[string]int // public coroutine name -> index in the C table
+	live   map[string]cgen.LiveFunc // "t.<name>" -> what the hook says about the coroutine
 }
 
 func (tc *toolchain) build(name string, p *wpkg) *builtPkg {
@@ -246,6 +247,12 @@ func (tc *toolchain) build(name string, p *wpkg) *builtPkg {
 		return bp
 	}
 	bp.csrc = string(csrc)
+	bp.live = map[string]cgen.LiveFunc{}
+	if tm, files, err := loadPkg([]string{wf}, nil); err == nil {
+		for _, lf := range cgen.Liveness(tm, files) {
+			bp.live[lf.Name] = lf
+		}
+	}
 	os.WriteFile(filepath.Join(bp.dir, name+".c"), csrc, 0o644)
 	os.Symlink(tc.baseC, filepath.Join(bp.dir, "wuffs-base.c"))
 	var fns []string
